@@ -4,3 +4,19 @@ package gff
 
 //@ func Feature.HasAttribute
 //@   ensures result == in(F.Attributes, tag)
+
+//@ # C14/C18: GFF3 column 8. A CDS row must carry 0, 1 or 2; any other row may also carry '.', which reads as 0. The phase
+//@ # returned is the number written in the column - never a default - and everything else is refused.
+//@ func phaseFromField
+//@   ensures [c14.value] implies(result2 == nil, (atoiok(f) && result1 == atoi(f) && 0 <= result1 && result1 <= 2) || (t != "CDS" && f == "." && result1 == 0))
+//@   ensures [c14.accepts] implies(atoiok(f) && 0 <= atoi(f) && atoi(f) <= 2, result2 == nil && result1 == atoi(f))
+//@   ensures [c18.refuses] implies(!(atoiok(f) && 0 <= atoi(f) && atoi(f) <= 2) && !(t != "CDS" && f == "."), result2 != nil)
+//@ # column 7
+//@ func strandFromField
+//@   ensures [value] result1 == f
+//@   ensures [c18.refuses] (result2 == nil) == (f == "+" || f == "-" || f == "." || f == "?")
+//@ # one feature row: nine tab-separated columns; type, start, end, strand and phase are the parsed columns 3, 4, 5, 7, 8
+//@ func featureFromLine
+//@   ensures [c18.columns] implies(result2 == nil, splitn(l, "\t") == 9)
+//@   ensures [c14.fields] implies(result2 == nil, result1.Type == splitat(l, "\t", 2) && result1.Start == atoi(splitat(l, "\t", 3)) && result1.End == atoi(splitat(l, "\t", 4)) && result1.Strand == splitat(l, "\t", 6))
+//@   ensures [c14.phase] implies(result2 == nil, (atoiok(splitat(l, "\t", 7)) && result1.Phase == atoi(splitat(l, "\t", 7)) && 0 <= result1.Phase && result1.Phase <= 2) || (result1.Type != "CDS" && splitat(l, "\t", 7) == "." && result1.Phase == 0))
